@@ -46,12 +46,19 @@ def plan(tier, seed):
 _files = {}
 
 
+def field_names(sizes, variant):
+    """variant bit 2: every field of a given width carries the same name (reserved / pad fields repeat in real tables)"""
+    if variant & 4:
+        return [('hl_reserved_w%d' % s, s) for s in sizes]
+    return [('field_%d_w%d' % (i, s), s) for i, s in enumerate(sizes)]
+
+
 def header_for(sizes, variant):
     key = (tuple(sizes), variant)
     if key not in _files:
         d = tempfile.mkdtemp(prefix='c16_', dir=clidrv.scratch_root())
         p = os.path.join(d, 'h.h')
-        cheader.write_header(p, [('01040000', 'x', [])], [('field_%d_w%d' % (i, s), s) for i, s in enumerate(sizes)],
+        cheader.write_header(p, [('01040000', 'x', [])], field_names(sizes, variant),
                              static=bool(variant & 1), brace_same_line=bool(variant & 2))
         _files[key] = p
     return _files[key]
@@ -78,7 +85,7 @@ def eval_case(case):
     data = bytes.fromhex(case['data'])
     if 'sizes' in case:
         path = header_for(case['sizes'], case.get('variant', 0))
-        fields = [('field_%d_w%d' % (i, s), s) for i, s in enumerate(case['sizes'])]
+        fields = field_names(case['sizes'], case.get('variant', 0))
     else:
         path = shipped_path(case['type'])
         fields = cheader.read_hlog_fields(path)
@@ -127,9 +134,9 @@ def run_chunk(chunk):
     if chunk['k'] == 'syn':
         sizes = chunk['sizes']
         total = sum(sizes)
-        for variant in range(4):
+        for variant in range(8):
             for n in range(0, total + 3):
-                if n <= 7 and variant == 0:
+                if n <= 7 and variant in (0, 4):
                     for vals in itertools.product((0x00, 0x01, 0xff), repeat=n):
                         _do(res, {'sizes': sizes, 'variant': variant, 'data': bytes(vals).hex()}, step=1999)
                 else:
